@@ -200,8 +200,11 @@ func Gen(prop, tier string, seed uint64) *kernel.Plan {
 			case 3:
 				e.Resp = "drop"
 			}
-			if prop == "C06" && (e.Mode == "reapply" || e.Mode == "stale" || e.Resp == "drop") {
-				e.Mode, e.Resp = "repush", ""
+			if prop == "C06" && (e.Mode == "reapply" || e.Mode == "stale") {
+				// C06 is about what the server stores: keep the request shapes an unlucky client sends
+				// (the same request again; acknowledged operations followed by new ones after a lost
+				// response), leave response games to C07
+				e.Mode = "repush"
 			}
 			evs = append(evs, e)
 		}
